@@ -208,11 +208,15 @@ void Point() noexcept;
 void Yield() noexcept;
 // Sleep on the virtual clock.
 void SleepNs(std::uint64_t ns);
+// Profile string given with --profile (one binary can serve several properties with different generator weights and
+// oracles); "" if none.
+const char* Profile() noexcept;
 // true while the tree is simulated under the race variant (plain accesses traced)
 bool RaceBuild() noexcept;
 
 int CounterId(const char* name);  // registers a named counter (probe_* / fault_* / stat_*), returns its index
 void CounterAdd(int id, std::uint64_t n = 1) noexcept;
+void CountDyn(const char* name);  // counter whose name is computed at run time (cell coverage)
 
 #define SIM_COUNT(name)                                                                                                \
   do {                                                                                                                 \
